@@ -181,7 +181,69 @@ def gen_cheb(ctx, rng, idx, quick):
         if rng.random() < 0.4: evals.append(("M", 64, xr, xi))
     return {"kind": "C", "cls": cls, "n": n, "coeffs": cs, "evals": evals}
 
+def ulp_step(x, k):
+    """the double k units in the last place away from the double x"""
+    u = struct.unpack("<q", struct.pack("<d", x))[0]
+    u += k if x > 0 else -k
+    return struct.unpack("<d", struct.pack("<q", u))[0]
+
+def gen_sec_cancel(ctx, rng, idx):
+    """A/(x-c) - A/(x+c) = 1 with A = 2^E: the two terms cancel at the roots x^2 = c^2 + 2Ac, so the computed
+    S(x) is exactly zero at (and around) the rounded root in every arithmetic while P(x) is not: the error
+    estimate of the product form must not collapse to zero there."""
+    E = rng.choice([40, 70, 100, 130, 160, 200]); A = Fr(2) ** E; c = Fr(rng.choice([1, 2, 3]))
+    ab = [((A, Fr(0)), (c, Fr(0))), ((-A, Fr(0)), (-c, Fr(0)))]
+    N = c * c + 2 * A * c
+    evals = []
+    for bits in (53, 64, 96, 128, 160, 192):
+        sh = max(0, 2 * bits - int(N).bit_length() + 2); sh += sh % 2
+        x = Fr(math.isqrt(int(N) << sh), 2 ** (sh // 2))
+        if bits == 53:
+            xd = float(x)
+            for k in (0, 1, -2):
+                xk = Fr(ulp_step(xd, k) if k else xd)
+                evals.append(("F", xk, Fr(0))); evals.append(("D", xk, Fr(0), 0))
+        else:
+            for wp in (64, 128): evals.append(("M", wp, x, Fr(0)))
+    return {"kind": "S", "cls": "cancel", "n": 2, "ab": ab, "evals": evals}
+
+def gen_sec_root(ctx, rng, idx):
+    """secular equation with a prescribed dyadic root x*: the last numerator is chosen (rational) so that
+    S(x*) = 0; points x* and x* +- a few ulps, where the computed S is (nearly) zero"""
+    n = rng.choice([2, 3, 5, 8])
+    cplx = rng.random() < 0.5
+    xs = (Fr(rng.randint(-64, 64), 16), Fr(rng.randint(-64, 64), 16) if cplx else Fr(0))
+    bs = set()
+    while len(bs) < n:
+        b = (Fr(rng.randint(-200, 200), 8), Fr(rng.randint(-200, 200), 8) if cplx else Fr(0))
+        if b != xs: bs.add(b)
+    bs = sorted(bs); rng.shuffle(bs)
+    def cdiv(a, b):
+        d = b[0] * b[0] + b[1] * b[1]
+        return ((a[0] * b[0] + a[1] * b[1]) / d, (a[1] * b[0] - a[0] * b[1]) / d)
+    ab = []; sr, si = Fr(1), Fr(0)           # 1 - sum_{i<n-1} a_i/(x*-b_i)
+    for b in bs[:-1]:
+        a = (Fr(rng.randint(1, 64) * rng.choice([-1, 1]), 8), Fr(rng.randint(-64, 64), 8) if cplx else Fr(0))
+        t = cdiv(a, (xs[0] - b[0], xs[1] - b[1])); sr -= t[0]; si -= t[1]
+        ab.append((a, b))
+    d = (xs[0] - bs[-1][0], xs[1] - bs[-1][1])
+    alast = (sr * d[0] - si * d[1], sr * d[1] + si * d[0])
+    if alast == (0, 0): alast = (Fr(1), Fr(0))
+    ab.append((alast, bs[-1]))
+    evals = []
+    xr, xi = float(xs[0]), float(xs[1])
+    for (kr, ki) in ((0, 0), (1, 0), (-1, 0), (3, 0), (0, 2) if cplx else (-4, 0), (2, -1) if cplx else (7, 0)):
+        pr = Fr(ulp_step(xr, kr)) if (kr and xr != 0) else Fr(xr) + (Fr(kr, 2 ** 60) if kr else 0)
+        pi = Fr(ulp_step(xi, ki)) if (ki and xi != 0) else Fr(xi) + (Fr(ki, 2 ** 60) if (ki and cplx) else 0)
+        evals.append(("F", pr, pi)); evals.append(("D", pr, pi, 0))
+        evals.append(("M", rng.choice([64, 128]), pr, pi))
+    for j in (70, 100, 130):
+        evals.append(("M", 64, xs[0] + Fr(1, 2 ** j), xs[1]))
+    return {"kind": "S", "cls": "nearroot", "n": n, "ab": ab, "evals": evals}
+
 def gen_sec(ctx, rng, idx, quick):
+    if idx % 5 == 3: return gen_sec_cancel(ctx, rng, idx)
+    if idx % 5 == 4: return gen_sec_root(ctx, rng, idx)
     n = rng.choice([1, 2, 3, 5, 8, 13, 20, 30, 40]) if rng.random() < 0.6 else rng.randint(1, 40)
     cls = ["real", "cplx", "fine"][idx % 3]
     bs = set()
@@ -261,6 +323,7 @@ class Judge:
         self.max_ratio = {}          # worst observed |err| / bound per (kind, arith)
         self.max_est_ratio = {}      # worst observed |err| / estimate per kind (MP)
         self.pole_ok = 0; self.noimpl = 0; self.flags_bad = 0; self.skipped = 0
+        self.est_judged = {}; self.est_below = {}; self.est_zero = {}
 
     def h(self, key):
         self.hist[key] = self.hist.get(key, 0) + 1
@@ -317,11 +380,22 @@ class Judge:
             rep["error_over_bound"] = self.max_ratio["%s/%s" % (kind, arith)]
             ctx.violation(sig_base + ":apriori-bound n=%d x=%s" % (n, rep["eline"]),
                           "|value - exact| exceeds the a-priori bound (%s, degree %d, %s)" % (kind, n, tag), rep)
+        if arith != "M":
+            # double / DPE: the property only asks the multiprecision estimate to be a bound; the
+            # double and DPE estimates are recorded as statistics (the monomial eps*p~ carries no factor n)
+            if est is not None:
+                key = "%s/%s" % (kind, arith)
+                self.ratio(self.max_est_ratio, key, e2, est)
+                self.est_judged[key] = self.est_judged.get(key, 0) + 1
+                if e2 > est * est:
+                    self.est_below[key] = self.est_below.get(key, 0) + 1
+                    if est == 0: self.est_zero[key] = self.est_zero.get(key, 0) + 1
         if arith == "M":
             if est is None:
                 ctx.violation(sig_base + ":estimate-non-finite n=%d" % n, "MP estimate is not finite", rep)
             else:
-                self.ratio(self.max_est_ratio, kind, e2, est)
+                self.ratio(self.max_est_ratio, kind + "/M", e2, est)
+                self.est_judged[kind + "/M"] = self.est_judged.get(kind + "/M", 0) + 1
                 if e2 > est * est:
                     rep["estimate"] = str(float(est)) if est < 10 ** 300 else "huge"
                     # one signature per evaluator (call site): the estimate formula is the unit that is wrong
@@ -400,9 +474,9 @@ def run_cases(ctx, harness, cases, judge):
                                       case_to_json(case, ev))
                     continue
                 if t[0] == "F":
-                    judge.judge_value(case, ev, "feval", t[1] == "1", dbits_to_fr(t[2]), dbits_to_fr(t[3]), None, 53, m)
+                    judge.judge_value(case, ev, "feval", t[1] == "1", dbits_to_fr(t[2]), dbits_to_fr(t[3]), dbits_to_fr(t[4]), 53, m)
                 elif t[0] == "D":
-                    judge.judge_value(case, ev, "deval", t[1] == "1", rdpe_to_fr(t[2], t[3]), rdpe_to_fr(t[4], t[5]), None, 53, m)
+                    judge.judge_value(case, ev, "deval", t[1] == "1", rdpe_to_fr(t[2], t[3]), rdpe_to_fr(t[4], t[5]), rdpe_to_fr(t[6], t[7]), 53, m)
                 elif t[0] == "M":
                     (ok, wp, re, im, est), _ = parse_mrec(t, 1)
                     judge.judge_value(case, ev, "meval", ok, re, im, est, wp, m)
@@ -441,8 +515,8 @@ def defect_probe(ctx, harness, rng):
             m = ctx.run_model("eval", mline(sec, ("F", Fr(5), Fr(0))) + "\n").split()
             t = o.strip().split("\n")[-1].split()
             j = Judge(ctx)
-            if t[0] == "F": j.judge_value(sec, ("F", Fr(5), Fr(0)), "feval-foreign-context", t[1] == "1", dbits_to_fr(t[2]), dbits_to_fr(t[3]), None, 53, m)
-            elif t[0] == "D": j.judge_value(sec, ("D", Fr(5), Fr(0), 0), "deval-foreign-context", t[1] == "1", rdpe_to_fr(t[2], t[3]), rdpe_to_fr(t[4], t[5]), None, 53, m)
+            if t[0] == "F": j.judge_value(sec, ("F", Fr(5), Fr(0)), "feval-foreign-context", t[1] == "1", dbits_to_fr(t[2]), dbits_to_fr(t[3]), dbits_to_fr(t[4]), 53, m)
+            elif t[0] == "D": j.judge_value(sec, ("D", Fr(5), Fr(0), 0), "deval-foreign-context", t[1] == "1", rdpe_to_fr(t[2], t[3]), rdpe_to_fr(t[4], t[5]), rdpe_to_fr(t[6], t[7]), 53, m)
             else:
                 (ok, wp, re, im, est), _ = parse_mrec(t, 1)
                 j.judge_value(sec, ("M", 64, Fr(5), Fr(0)), "meval-foreign-context", ok, re, im, est, wp, m)
@@ -478,7 +552,7 @@ def run(ctx):
         replay(ctx, harness, json.load(open(ctx.replay)))
         return ctx.finish("proof", {"evaluations": judge.evals, "replay": ctx.replay})
     quick = ctx.quick()
-    nm, nc, ns = ctx.pick((40, 12, 18), (640, 200, 300))
+    nm, nc, ns = ctx.pick((40, 12, 20), (640, 200, 300))
     cases = [gen_mono(ctx, rng, i, quick) for i in range(nm)]
     cases += [gen_cheb(ctx, rng, i, quick) for i in range(nc)]
     cases += [gen_sec(ctx, rng, i, quick) for i in range(ns)]
@@ -497,7 +571,8 @@ def run(ctx):
     probe = defect_probe(ctx, harness, rng)
     ctx.log("evaluations judged: %d (non-zero error %d), poles %d, noimpl %d" % (judge.evals, judge.nontrivial, judge.pole_ok, judge.noimpl))
     ctx.log("worst |err|/bound: %s" % json.dumps({k: round(v, 4) for k, v in judge.max_ratio.items()}))
-    ctx.log("worst |err|/estimate (MP): %s" % json.dumps({k: round(v, 6) for k, v in judge.max_est_ratio.items()}))
+    ctx.log("worst |err|/estimate: %s" % json.dumps({k: (round(v, 6) if v < 1e300 else "inf") for k, v in judge.max_est_ratio.items()}))
+    ctx.log("double/DPE estimates below the error (statistic): %s ; exactly zero: %s" % (json.dumps(judge.est_below), json.dumps(judge.est_zero)))
     cov = {
         "evaluations": judge.evals,
         "distinct_nontrivial": judge.nontrivial,
@@ -509,7 +584,10 @@ def run(ctx):
         "poles_reported_as_failure": judge.pole_ok,
         "no_evaluator": judge.noimpl,
         "worst_error_over_apriori_bound": {k: round(v, 6) for k, v in judge.max_ratio.items()},
-        "worst_error_over_mp_estimate": {k: round(v, 6) for k, v in judge.max_est_ratio.items()},
+        "worst_error_over_estimate": {k: (round(v, 6) if v < 1e300 else "inf") for k, v in judge.max_est_ratio.items()},
+        "estimates_judged": dict(sorted(judge.est_judged.items())),
+        "double_dpe_estimate_below_error": dict(sorted(judge.est_below.items())),
+        "double_dpe_estimate_zero_with_nonzero_error": dict(sorted(judge.est_zero.items())),
         "defect_probe_exit_codes": probe,
         "constants": {"mu_over_u_double_dpe": MU_FP, "mu_over_u_mp": MU_MP,
                       "monomial": "(20/9 mu/u n + 2) u p~(|x|)", "chebyshev": "(10/9)(3n+2) mu sum|c_k|T~_k(|x|)",
